@@ -131,7 +131,7 @@ pub fn def() -> PropDef {
             name: "ctors",
             rule: "see property rule",
             strategy,
-            cases: (20_000, 1_500_000),
+            cases: (200_000, 3_000_000),
             exhaustive: Some(enumerate),
             exhaustive_note: "complete enumeration of (family, n, constructor, argument) as listed in the rule; only symmetric(c) has a generated part in addition",
             run,
